@@ -201,10 +201,10 @@ def dump_spec_text(d, path):
         if c[0] == "pattern":
             need(texts.get(c[1], c[2]) == c[2], "validate_regex_%d is used with two different regex texts" % c[1])
             texts[c[1]] = c[2]
-    with open(os.path.join(path, "regex_texts.txt"), "w") as f:
+    with atomic_open(os.path.join(path, "regex_texts.txt")) as f:
         for k in sorted(texts):
             f.write("%d %s\n" % (k, texts[k]))
-    with open(os.path.join(path, "spec_tables.txt"), "w") as f:
+    with atomic_open(os.path.join(path, "spec_tables.txt")) as f:
         f.write("REFERENCE_TYPE_IDX %d\nAUTOSAR_ELEMENT %d\nSHORT_NAME %d\nATTR_DEST %d\n" % (
             d["reference_type_idx"], d["autosar_element"], d["short_name"], d["attr_dest"]))
         f.write("CDATA %d\n" % len(d["cdata"]))
